@@ -150,7 +150,70 @@ def janet_case(cid, case):
     f, args = case
     defs = ' '.join('(def a%d %s)' % (i, jan(a)) for i, a in enumerate(args))
     names = ' '.join('a%d' % i for i in range(len(args)))
+    if f.startswith('@'):
+        # arity family: the function is called through a first-class value with too few / too many arguments
+        return '(R %d (fn [] %s (def f %s) [(fn [] (f %s)) [%s]]))' % (cid, defs, f[1:], names, names)
     return '(R %d (fn [] %s [(fn [] (%s %s)) [%s]]))' % (cid, defs, f, names, names)
+
+
+# ------------------------------------------------------------------ documented arity of the C library functions
+def documented_arity(tree, files=("src/core/string.c", "src/core/buffer.c", "src/core/array.c", "src/core/tuple.c", "src/core/corelib.c")):
+    """{janet name: (min, max or None)} read from the *usage string* of every JANET_CORE_FN in the given files
+    ("(string/slice bytes &opt start end)" -> (1, 3); "&" -> unbounded) and the JANET_CORE_REG table that names it.
+    This is the documented arity, independent of the janet_arity / janet_fixarity call inside the function."""
+    import os
+    import re
+    out = {}
+    for rel in files:
+        try:
+            src = open(os.path.join(tree, rel)).read()
+        except OSError:
+            continue
+        usage = {}
+        for m in re.finditer(r'JANET_CORE_FN\(\s*(\w+)\s*,\s*"((?:[^"\\]|\\.)*)"', src):
+            usage[m.group(1)] = m.group(2)
+        for m in re.finditer(r'JANET_CORE_REG\(\s*"([^"]+)"\s*,\s*(\w+)\s*\)', src):
+            name, cf = m.group(1), m.group(2)
+            u = usage.get(cf)
+            if not u or not u.startswith('(' + name):
+                continue
+            body = u.strip()
+            body = body[1:-1] if body.endswith(')') else body[1:]
+            legacy_opt = 0
+            if ' [' in body:                       # legacy notation "(tuple/slice arrtup [,start=0 [,end=(length arrtup)]])"
+                body, rest_ = body.split(' [', 1)
+                legacy_opt = 1 + rest_.count('[')
+            toks = body.split()[1:]
+            lo = hi = 0
+            mode = 'req'
+            for t in toks:
+                if t == '&opt':
+                    mode = 'opt'
+                elif t in ('&', '&keys', '&named'):
+                    hi = None
+                    break
+                else:
+                    if mode == 'req':
+                        lo += 1
+                    hi += 1
+            if hi is not None:
+                hi += legacy_opt
+            # the arity the code enforces in the function itself, where it is a literal janet_arity / janet_fixarity call
+            code = None
+            mb = re.search(r'JANET_CORE_FN\(\s*%s\s*,' % re.escape(cf), src)
+            if mb:
+                j = src.find('{', src.find(')', mb.end()))
+                k = src.find('\nJANET_CORE_FN', j)
+                fb = src[j:k if k > 0 else len(src)]
+                fb = fb[:fb.find('\n}\n') + 1] if '\n}\n' in fb else fb
+                mm = re.search(r'janet_fixarity\(\s*argc\s*,\s*(\d+)\s*\)', fb)
+                if mm:
+                    code = (int(mm.group(1)), int(mm.group(1)))
+                mm = re.search(r'janet_arity\(\s*argc\s*,\s*(\d+)\s*,\s*(-?\d+)\s*\)', fb)
+                if mm:
+                    code = (int(mm.group(1)), None if int(mm.group(2)) < 0 else int(mm.group(2)))
+            out[name] = (lo, hi, code)
+    return out
 
 
 # ------------------------------------------------------------------ python reference oracle
@@ -292,6 +355,8 @@ def fn_of(v, table):
 def oracle(case):
     """-> ('ok', value, args_after) | ('err', args_after or None) | None (no opinion)."""
     f, args = case
+    if f.startswith('@'):
+        return ('err', list(args))         # a call outside the documented arity raises (the message class is judged separately)
     try:
         r = _oracle(f, args)
     except Err as e:
